@@ -12,10 +12,13 @@
        (in particular the smallest).
    The proof goes through the heap invariant of container/heap (up/down/Push/Pop/Remove on the
    array, Proofs/HeapProofs.v) and the Count-Min bounds of C03 (Proofs/CMSProofs.v).
-   The Redis variant (sorted set + Lua) is tied to the same statements by correspondence and by
-   the C08 pair machine only (partial). *)
-From GX.Model Require Import Base CMS Heap TopK.
-From GX.Proofs Require Import ListLemmas CMSProofs HeapProofs TopKProofs TopKInv.
+   The Redis variant (Count-Min rows as Redis lists + a sorted set) satisfies the same clauses for
+   histories whose total stays below 2^53 (C04_redis_values): the sorted set evolves by the
+   ZREM/ZADD/ZPOPMIN step of Insert, the estimates are those of the Redis sketch, which equal the
+   in-memory ones there (Proofs/RedisCMSRefine.v); a new Top-K with fresh keys satisfies the
+   invariant (C04_redis_new). *)
+From GX.Model Require Import Base CMS Heap TopK Redis RedisCMS RedisTopK.
+From GX.Proofs Require Import ListLemmas CMSProofs HeapProofs TopKProofs TopKInv RedisCMSRefine TopKRedisInv.
 From Coq Require Import Permutation Sorted.
 
 Theorem C04_values_partial : forall t,
@@ -54,6 +57,34 @@ Theorem C04_mem_values : forall k s0 ins,
 Proof. exact (topk_values_history cpos rows cols cpos_len cpos_lt). Qed.
 End Mem.
 
+(* Redis-backed variant *)
+Theorem C04_redis_values : forall (cpos : N -> N -> bytes -> list N) rows cols,
+  (forall x, length (cpos rows cols x) = N.to_nat rows) ->
+  (forall x p, In p (cpos rows cols x) -> p < cols) ->
+  forall s t H ins,
+  0 < rows -> 0 < cols -> RTI cpos rows cols s t H -> 1 <= rt_k t ->
+  Forall (fun e => 1 <= snd e) ins -> total (H ++ ins) < B53 ->
+  exists t' s', rtrun cpos s t ins = (Ok t', s') /\ rt_k t' = rt_k t /\
+    let vs := rtopk_values s' t' in
+    let H' := H ++ ins in
+    NoDup (map fst vs) /\
+    N.of_nat (length vs) = N.min (rt_k t) (N.of_nat (length (distinct H'))) /\
+    (forall e, In e vs -> In (fst e) (map fst H') /\ true_count H' (fst e) <= hfreq e /\ hfreq e <= total H') /\
+    (forall x, In x (map fst H') -> ~ In x (map fst vs) ->
+       N.of_nat (length vs) = rt_k t /\ forall e, In e vs -> true_count H' x <= hfreq e).
+Proof. exact redis_topk_values_history. Qed.
+
+Theorem C04_redis_new : forall (cpos : N -> N -> bytes -> list N) rows cols,
+  (forall x, length (cpos rows cols x) = N.to_nat rows) ->
+  (forall x p, In p (cpos rows cols x) -> p < cols) ->
+  forall s k er acc ertxt acctxt skey smeta hkey meta t s2 m0,
+  rtopk_new s k rows cols er acc ertxt acctxt skey smeta hkey meta = (Ok t, s2) ->
+  cms_new rows cols = Ok m0 ->
+  sget s hkey = None -> hkey <> smeta -> hkey <> meta ->
+  (forall r, row_key skey r <> hkey) -> (forall r, row_key skey r <> meta) ->
+  RTI cpos rows cols s2 t [] /\ rt_k t = k.
+Proof. exact rtopk_new_RTI. Qed.
+
 (* the heap operations of container/heap, on arrays of any content: Push adds the entry, Pop
    removes an entry of minimal frequency, Remove(i) removes entry i; each keeps the heap order *)
 Theorem C04_heap_push : forall h e, heap_ok h ->
@@ -65,7 +96,7 @@ Proof.
   intros h m h' H E. destruct (heap_pop_ok h m h' H E) as [A B]. destruct (heap_pop_perm h m h' E) as [C _]. auto.
 Qed.
 Theorem C04_heap_remove : forall h i, heap_ok h -> (i < length h)%nat ->
-  heap_ok (heap_remove h i) /\ Permutation (hget h i :: heap_remove h i) h.
+  heap_ok (heap_remove h i) /\ Permutation (Heap.hget h i :: heap_remove h i) h.
 Proof. intros h i H Hi. split; [apply heap_remove_ok; assumption|apply heap_remove_perm; exact Hi]. Qed.
 
 (* non-vacuity: the code's own position formula satisfies the hypotheses (C03_code_positions_wf),
@@ -83,3 +114,5 @@ Print Assumptions C04_mem_values.
 Print Assumptions C04_heap_push.
 Print Assumptions C04_heap_pop.
 Print Assumptions C04_heap_remove.
+Print Assumptions C04_redis_values.
+Print Assumptions C04_redis_new.
